@@ -47,7 +47,8 @@ type Rec struct {
 type Log struct {
 	Scenario string   `json:"scenario"`
 	Calls    int      `json:"calls"`
-	Errs     []string `json:"errs"`
+	Errs     []string `json:"errs"` // the first 40 errors returned by library calls (many are expected: unknown topics, ...)
+	NErr     int      `json:"nerr"` // number of library calls that returned an error
 	Conns    int      `json:"conns"`
 	Ms       int64    `json:"ms"`
 }
@@ -85,6 +86,7 @@ type env struct {
 	mu    sync.Mutex
 	taps  []*tap
 	errs  []string
+	nerr  int
 	calls int
 }
 
@@ -92,6 +94,7 @@ const opTimeout = 10 * time.Second
 
 func (e *env) errf(format string, a ...interface{}) {
 	e.mu.Lock()
+	e.nerr++
 	if len(e.errs) < 40 {
 		e.errs = append(e.errs, fmt.Sprintf(format, a...))
 	}
@@ -253,12 +256,12 @@ func newEnv(sc *Scenario, seed int64) *env {
 }
 
 var saslUsers = map[string]string{
-	"alice": "secret",
-	"u":     "p",
-	"user-" + strings.Repeat("x", 200):      strings.Repeat("pw", 150),
+	"alice":                            "secret",
+	"u":                                "p",
+	"user-" + strings.Repeat("x", 200): strings.Repeat("pw", 150),
 	"jürgen":                           "grüß-€",
-	"bob@example.com":                       " spaces and \t tabs ",
-	"name,with=special":                     "=,=",
+	"bob@example.com":                  " spaces and \t tabs ",
+	"name,with=special":                "=,=",
 	"n" + strings.Repeat("é", 63) + "": "q",
 }
 
@@ -283,7 +286,7 @@ func RunScenario(sc *Scenario, seed int64) ([]Rec, Log) {
 	}
 	recs := e.records()
 	e.mu.Lock()
-	lg := Log{Scenario: sc.Name, Calls: e.calls, Errs: append([]string{}, e.errs...), Conns: len(recs), Ms: time.Since(t0).Milliseconds()}
+	lg := Log{Scenario: sc.Name, Calls: e.calls, Errs: append([]string{}, e.errs...), NErr: e.nerr, Conns: len(recs), Ms: time.Since(t0).Milliseconds()}
 	e.mu.Unlock()
 	return recs, lg
 }
